@@ -36,7 +36,7 @@ THEOREMS = ["JanetModel.Props.C09." + t for t in (
     "env_slot_test_is_bit", "env_walk_visits_set_bits",                                  # closure env written from a live frame
     "roundtrip_code", "roundtrip_funcdef", "roundtrip_funcenv", "code_ids_agree", "roundtrip_code_top",   # functions, funcdefs, closure envs
     "code_model_extends_data_model",                                                     # Code.lean = Graph.lean on data heaps (marshal side)
-    "presentation_exists", "presentation_exists_top", "presentation_unique", "presentation_roundtrip",   # every graph has exactly one presentation in reference-number order
+    "presentation_exists", "presentation_exists_top", "presentation_unique", "presentation_canonical", "presentation_idempotent", "presentation_roundtrip",   # every graph has exactly one presentation in reference-number order
     "asm_disasm_def", "asm_slotcount_covers", "asm_slotcount_le", "asm_slotcount_eq", "asm_disasm_def_tight",   # asm . disasm at funcdef level: slot count, janet_verify
     "asm_disasm_instr", "asm_disasm_bytecode",                                           # asm . disasm on instruction words / bytecode arrays
     "abstract_hook_roundtrip", "int64_hooks_paired", "int64_box_roundtrip", "channel_hooks_paired", "channel_roundtrip", "peg_hooks_paired",  # abstract hook protocol
@@ -366,7 +366,9 @@ def compiled_cases(ctx, thorough):
 
 PARAM_LISTS = ["[]", "[a]", "[a b c]", "[& r]", "[a & r]", "[a b & r]", "[&opt a]", "[a &opt b c]", "[a &opt b & r]", "[&keys k]", "[a &keys k]",
                "[&named x y]", "[a &named x]", "[a &opt b &keys k]", "[[a b] c]", "[[a b] & r]", "[{:k v} c]", "[a [b [c d]]]", "[a &opt [b c]]",
-               "[a b c d e f g h]", "[a b c d e f g h & r]"]
+               "[a b c d e f g h]", "[a b c d e f g h & r]",
+               # rest / keys slot without a name of its own (no symbol-map entry for it)
+               "[& []]", "[a & []]", "[& [x]]", "[a & _]", "[&named]", "[a &named]", "[&keys {}]", "[a b &keys {:k v}]", "[&opt a & []]"]
 
 
 def param_cases(ctx, thorough):
@@ -513,7 +515,7 @@ def run(ctx):
         ctx.gen("Asm.lean", gen_asm.render(ctx.build.tree))
         ctx.gen("AsmDef.lean", gen_asmdef.render(ctx.build.tree))
     except ExtractError as e:
-        broken.append("translator tools/gen/marsh.py: %s" % e)
+        broken.append("translator tools/gen (marsh / marshcode / bytecode / asm / asmdef): %s" % e)
         ctx.broken.append(broken[-1])
     except BuildError as e:
         ctx.violation("build-failed", {"kind": "build", "error": str(e)}, found=False, what="tree does not build")
